@@ -7,6 +7,10 @@ ALL = ["C%02d" % i for i in range(1, 21)]
 CODEC_NOTE = "Trusted: the reflection bridge (identity-checked on every case), the schema universe and alphabets, the reference codecs, the Go toolchain. Schemas enter as the generator's intermediate JSON (the Java parser is absent). Small-scope bounds: depth <= 2 (3 on spines), <= 5 entries, strings <= 2 chars over the metacharacter set + tokens."
 WIRE_NOTE = "Trusted: mc/wire (net/http serialisation + server-side parsing, no sockets), the reflection bridge and call/reply machinery, the resource universe. Resources enter as the generator's intermediate JSON. Association resources are not in the grammar (the generator does not support them)."
 CHECKS = {
+ "C16": dict(engine="enumx", category="model_checking", design="§3 C16",
+   technique="exhaustive enumeration of key multisets over an adversarial key pool x reply scripts through generated batch clients -> wire -> server -> mock; oracle = refbatch (duplicates rejected before send, ids once and ascending, entries under the caller's own key object)",
+   text="For every keyed root collection (string, int64, complex key; more key types in thorough) and batch_get / batch_update / batch_partial_update / batch_delete: every key multiset of size <=3 (thorough 4) over a pool containing FNV-1a-colliding keys (found by deterministic search), complex keys equal up to params, keys differing only in escaping-relevant characters, the empty string and reserved characters; replies assign each key to subsets of {results, statuses, errors} (all 512 assignments on a base key set) and add never-requested keys. Duplicates must be refused with no request on the wire; ids must list each key once in ascending encoded order; every response entry must sit under the very key value the caller supplied (pointer identity for complex keys).",
+   note=WIRE_NOTE + " bytes-keyed collections are excluded (their generated bindings do not compile, see C12)."),
  "C08": dict(engine="enumx", category="model_checking", design="§3 C08",
    technique="exhaustive enumeration of (method, implementation outcome) through generated client -> wire -> real server -> mock, with deep before/after snapshots of the error object held by the resource",
    text="Every method of every resource x 70 outcomes (value, overridden status, typed nil result, ErrorResponse with each of the 64 subsets of {status, message, serviceErrorCode, exceptionClass, code, stackTrace} set, plain error, wrapped ErrorResponse, panic(string), panic(error)): the client error must carry an equal ErrorResponse, HTTP status = its status or 500, error header iff error; other failures must yield a status >= 400 carrying the message and never a crashed connection; successes must use the protocol default status unless overridden; the resource's error object must be bit-for-bit unchanged. Plus one error object shared by 3 sequential requests and all 27 assignments of {result, error, status} to 3 batch keys.",
